@@ -19,6 +19,9 @@
 #include "Collection.hh"
 #include "CollectionMirror.hh"
 #include "CollectionStateStore.hh"
+#ifdef CELERITAS_VERIF
+#    include "corecel/sys/VerifHooks.hh"
+#endif
 
 namespace celeritas
 {
@@ -201,8 +204,14 @@ StreamStore<P, S>::state(StreamId stream_id, size_type size)
     auto& state_vec = StreamStore::states_impl<M>(*this);
     CELER_ASSERT(state_vec.size() == num_streams_);
     auto& state_store = state_vec[stream_id.unchecked_get()];
+#ifdef CELERITAS_VERIF
+    CELER_VERIF_YIELD("streamstore-state-check");
+#endif
     if (CELER_UNLIKELY(!state_store))
     {
+#ifdef CELERITAS_VERIF
+        CELER_VERIF_YIELD("streamstore-state-alloc");
+#endif
         state_store = {this->params<MemSpace::host>(), stream_id, size};
     }
 
